@@ -180,9 +180,31 @@ Definition int_succs (cf : cfg) (s : state) : list state :=
   | None => map canon (Explore.filter_map (fun r => r s) (rules cf s))
   end.
 
+Definition all_succs (cf : cfg) (s : state) : list state :=
+  map canon (Explore.filter_map (fun r => r s) (rules cf s)).
+
+(* A step may be a group of environment actions performed one after the other without waiting in between: the
+   goroutines of the proxy react while the later actions are still to come. Exploration state: model state and
+   the actions not yet performed; the next action may be performed at any moment. (The reduction above argues
+   about a reaction without further environment actions, so it is used only once the group is exhausted.) *)
+Definition xstate := (state * list act)%type.
+Definition xeqb (a b : xstate) : bool := Nat.eqb (length (snd a)) (length (snd b)) && state_eqb (fst a) (fst b).
+Definition xsuccs (cf : cfg) (x : xstate) : list xstate :=
+  match snd x with
+  | [] => map (fun s => (s, [])) (int_succs cf (fst x))
+  | a :: rest => (canon (ext (fst x) a), rest) :: map (fun s => (s, a :: rest)) (all_succs cf (fst x))
+  end.
+
+Definition is_attach (a : act) : bool := match a with AAttach _ _ => true | _ => false end.
+
 Definition react_all (cf : cfg) (s : state) (acts : list act) : option (list state) :=
-  let s1 := fold_left ext acts (clear_log s) in
-  explore state_eqb (int_succs cf) 60000 [s1] [s1] [].
+  if existsb is_attach acts then
+    (* AddClient is performed at a quiescent point, alone (its record number is fixed beforehand) *)
+    let s1 := fold_left ext acts (clear_log s) in
+    explore state_eqb (int_succs cf) 60000 [s1] [s1] []
+  else
+    let x1 := (clear_log s, acts) in
+    option_map (map fst) (explore xeqb (xsuccs cf) 60000 [x1] [x1] []).
 
 (* ---- comparing a quiescent model state with the observation ---- *)
 Definition zleb (a b : Z) : bool := a <=? b.
